@@ -1506,7 +1506,7 @@ func TestC12(t *testing.T) {
 	}
 
 	// (R1) random values through the library modes
-	rec.Rapid(t, "lib", rec.Scale(40000, 1500000), func(t *rapid.T) {
+	rec.Rapid(t, "lib", rec.Scale(80000, 1500000), func(t *rapid.T) {
 		v := genVal(t, gopt{bad: true, depth: 3, width: 4, longStrs: true}, 3)
 		c := libCase{V: univ.V{X: v}}
 		rec.Eval()
@@ -1519,7 +1519,7 @@ func TestC12(t *testing.T) {
 	})
 
 	// (R2) float64 bit-pattern classes through the library modes
-	rec.Rapid(t, "float", rec.Scale(40000, 1500000), func(t *rapid.T) {
+	rec.Rapid(t, "float", rec.Scale(60000, 1500000), func(t *rapid.T) {
 		f := genFloat(t)
 		v := any(f)
 		if rapid.Bool().Draw(t, "wrapped") {
@@ -1535,7 +1535,7 @@ func TestC12(t *testing.T) {
 	})
 
 	// (R3) batches of random values through every JSON output mode of the command
-	rec.Rapid(t, "cli", rec.Scale(900, 16000), func(t *rapid.T) {
+	rec.Rapid(t, "cli", rec.Scale(1200, 12000), func(t *rapid.T) {
 		vals := rapid.SliceOfN(valGen(gopt{bad: true, depth: 3, width: 4, longStrs: true}), 1, 40).Draw(t, "vals")
 		n := len(vals)
 		c := cliCase{Vals: vals, Flags: genFlags(t), Color: rapid.IntRange(0, 2).Draw(t, "color") > 0}
@@ -1565,7 +1565,7 @@ func TestC12(t *testing.T) {
 
 	// (R4) deep and wide containers under every indentation unit
 	maxD := rec.Scale(110, 260)
-	rec.Rapid(t, "layout", rec.Scale(700, 9000), func(t *rapid.T) {
+	rec.Rapid(t, "layout", rec.Scale(800, 7000), func(t *rapid.T) {
 		var v any
 		shape := rapid.IntRange(0, 5).Draw(t, "shape")
 		switch shape {
@@ -1595,7 +1595,7 @@ func TestC12(t *testing.T) {
 	})
 
 	// (R5) YAML round trip
-	rec.Rapid(t, "yaml", rec.Scale(900, 16000), func(t *rapid.T) {
+	rec.Rapid(t, "yaml", rec.Scale(1200, 12000), func(t *rapid.T) {
 		indent := rapid.SampledFrom([]int{-1, -1, -1, 0, 1, 2, 3, 4, 5, 6, 7, 8, 9}).Draw(t, "indent")
 		var vals []univ.V
 		for _, w := range rapid.SliceOfN(yamlValGen, 1, 30).Draw(t, "vals") {
